@@ -1264,6 +1264,10 @@ func runC13(r *Run, rng *Rng, replay string) {
 	for i, S := range c13agileSizes(rng, thorough) {
 		c13agile(r, S, i%7)
 	}
+	c13agilen(r, 4092, 0) // regression: stream length 4100 panicked (slice bounds out of range [4104:4100])
+	for i, N := range c13agilenSizes() {
+		c13agilen(r, N, i%5)
+	}
 	mark("agile")
 	for _, p := range pws {
 		c13u16(r, p)
@@ -1336,6 +1340,11 @@ func c13replay(r *Run, rng *Rng, path string) {
 			if len(w) == 3 {
 				v := ints(w[1:])
 				c13agile(r, v[0], v[1])
+			}
+		case "agilen":
+			if len(w) == 3 {
+				v := ints(w[1:])
+				c13agilen(r, v[0], v[1])
 			}
 		case "u16":
 			if len(w) == 2 {
